@@ -479,12 +479,52 @@ func c06Premises(c *Ctx, oc *obligCtx) map[string]string {
 // ("under m != nil", "under err == nil"). They are facts of the path and are re-established on
 // every run; when one fails the entry is void at that site.
 var c06ReviewedLocal = map[string]string{
+	"parser.lexComment#slice:l.input[l.start:(l.pos-1)]#0": "consumes-after-start",
 	"interpreter.(*addeventandwait).Run$1#assert:proc.AddEventAndWait()#0.(*RootMonitor)#0": "operand-nonnil",
 	"interpreter.(*notinOpRuntime).Eval#assert:rt.inOpRuntime.Eval()#0.(bool)#0":            "error-nil",
 }
 
 func c06LocalPremise(ob Obligation) string {
 	kind := c06ReviewedLocal[ob.Site]
+	if kind == "consumes-after-start" {
+		// input[start:pos-1] needs pos-1 ≥ start: at least one rune was consumed (next with peek 0)
+		// on every path from the startNew() that set start to the slice
+		fn := ob.Instr.Parent()
+		var starts []ssa.Instruction
+		allInstrs(fn, func(in ssa.Instruction) {
+			if ci, ok := in.(ssa.CallInstruction); ok {
+				if g := ci.Common().StaticCallee(); g != nil && g.Name() == "startNew" && dominates(in, ob.Instr) {
+					starts = append(starts, in)
+				}
+			}
+		})
+		if len(starts) == 0 {
+			return "no startNew() dominates the slice any more"
+		}
+		consumes := func(in ssa.Instruction) bool {
+			ci, ok := in.(ssa.CallInstruction)
+			if !ok {
+				return false
+			}
+			g := ci.Common().StaticCallee()
+			if g == nil || g.Name() != "next" || len(ci.Common().Args) < 2 {
+				return false
+			}
+			k, isC := constInt(ci.Common().Args[1])
+			return isC && k == 0
+		}
+		// the last startNew before the slice: the one no other startNew lies behind
+		last := starts[0]
+		for _, s2 := range starts {
+			if dominates(last, s2) {
+				last = s2
+			}
+		}
+		if instrPathAvoiding(last, ob.Instr, consumes) {
+			return "a path from startNew() to the slice consumes no rune (no next(0)): start = pos there and the upper bound pos-1 lies below start (a comment beginning `/*/`)"
+		}
+		return ""
+	}
 	ta, ok := ob.Instr.(*ssa.TypeAssert)
 	if kind == "" || !ok {
 		return ""
@@ -510,4 +550,42 @@ func c06LocalPremise(ob Obligation) string {
 		}
 	}
 	return ""
+}
+
+// instrPathAvoiding: is there a path from just after `from` to `to` on which no instruction
+// satisfies avoid?
+func instrPathAvoiding(from, to ssa.Instruction, avoid func(ssa.Instruction) bool) bool {
+	type pt struct {
+		b *ssa.BasicBlock
+		i int
+	}
+	start := pt{from.Block(), instrIndex(from) + 1}
+	seen := map[pt]bool{}
+	work := []pt{start}
+	for len(work) > 0 {
+		p := work[len(work)-1]
+		work = work[:len(work)-1]
+		if seen[p] {
+			continue
+		}
+		seen[p] = true
+		blocked := false
+		for i := p.i; i < len(p.b.Instrs); i++ {
+			in := p.b.Instrs[i]
+			if in == to {
+				return true
+			}
+			if avoid(in) {
+				blocked = true
+				break
+			}
+		}
+		if blocked {
+			continue
+		}
+		for _, s := range p.b.Succs {
+			work = append(work, pt{s, 0})
+		}
+	}
+	return false
 }
